@@ -216,8 +216,15 @@ where
             datetime.format("%a %b %d").to_string()
         }
         brush_parser::prompt::PromptDateFormat::Custom(fmt) => {
+            // N.B. Formatting fails on a conversion chrono doesn't know (e.g. `%Q`); `to_string()`
+            // would panic then. Like strftime(3), leave such a format as it is.
+            use std::fmt::Write as _;
             let fmt_items = chrono::format::StrftimeItems::new(fmt);
-            datetime.format_with_items(fmt_items).to_string()
+            let mut formatted = String::new();
+            if write!(formatted, "{}", datetime.format_with_items(fmt_items)).is_err() {
+                formatted.clone_from(fmt);
+            }
+            formatted
         }
     }
 }
